@@ -81,6 +81,9 @@ func asRandomScenario(rng *rand.Rand, ops [][2]string, vias []string) (*asScenar
 		sc.Cfg.FailMode = "panic" // handlers fail by panicking instead of calling ctx.Failed
 	}
 	if rng.Intn(5) == 0 {
+		sc.Cfg.RelaunchFail = []string{sc.Names[rng.Intn(len(sc.Names))]} // a double fault: the first launch after a restart fails
+	}
+	if rng.Intn(5) == 0 {
 		sc.Cfg.HookFail = []string{sc.Names[rng.Intn(len(sc.Names))], []string{"prerestart", "restarted", "prelaunch"}[rng.Intn(3)]}
 		if rng.Intn(2) == 0 {
 			sc.Cfg.HookFailMode = "panic"
@@ -278,6 +281,30 @@ func asFailingRestartHook(rng *rand.Rand) (*asScenario, []asStep) {
 		sc.Cfg.Strategy[n] = []string{"ofo", "ofa"}[rng.Intn(2)]
 	}
 	victim := []string{"a", "c", "b"}[rng.Intn(3)]
+	if rng.Intn(3) == 0 {
+		// the double fault: the restart succeeds, the new incarnation's OnLaunch fails, with mail queued behind
+		sc.Cfg.RelaunchFail = []string{victim}
+		sc.Cfg.DecisionSeq = map[string][]string{sc.Parent[victim]: {[]string{"restart", "grestart"}[rng.Intn(2)], []string{"restart", "resume", "stop", "grestart"}[rng.Intn(4)]}}
+		if rng.Intn(2) == 0 {
+			// fixed schedule: b (childless: its restart is one turn) fails with mail behind it, is restarted, its new
+			// OnLaunch fails; if b has a turn before its supervisor has decided again, it is taken first
+			sc.Cfg.RelaunchFail = []string{"b"}
+			sc.Cfg.Strategy["t"] = "ofo"
+			sc.Cfg.DecisionSeq = map[string][]string{"t": {"restart", []string{"restart", "resume", "stop", "grestart"}[rng.Intn(4)]}}
+			steps := []asStep{{A: "spawn", X: "t"}, {A: "turn", X: "t"}, {A: "turn", X: "a"}, {A: "turn", X: "b"}, {A: "turn", X: "c"},
+				{A: "tell", X: "b", Op: "fail"}, {A: "tell", X: "b", Op: "nop"}, {A: "tell", X: "b", Op: "nop"},
+				{A: "turn", X: "b"}, {A: "turn", X: "t"}, {A: "turn", X: "b"}, {A: "turn", X: "b"}, {A: "random"}}
+			for i := 0; i < rng.Intn(3); i++ {
+				steps = append(steps, asStep{A: "tell", X: []string{"a", "b", "t"}[rng.Intn(3)], Op: "nop"})
+			}
+			return sc, steps
+		}
+		steps := []asStep{{A: "spawn", X: "t"}, {A: "settle"}, {A: "tell", X: victim, Op: "fail"}}
+		for i := 0; i < 2+rng.Intn(3); i++ {
+			steps = append(steps, asStep{A: "tell", X: victim, Op: "nop", Burst: true})
+		}
+		return sc, steps
+	}
 	sc.Cfg.HookFail = []string{victim, []string{"restarted", "prelaunch", "prerestart"}[rng.Intn(3)]}
 	if rng.Intn(2) == 0 {
 		sc.Cfg.HookFailMode = "panic"
@@ -586,8 +613,18 @@ func init() {
 		c.Add("traces_validated_against_impl", int64(res.Validated))
 	})
 	register("C09", func(c *core.Ctx) {
+		// "no surviving actor stays paused" has a mailbox-level half: the supervisor's answer reaches a paused mailbox whose
+		// consumer may be on its way out.  Supervision-shaped scenarios on the real mailbox under fine-grained schedules,
+		// judged by MailboxMon
+		mt, ok := mbSupervisionTraces(c, core.Pick(c, 250, 3000))
+		if !ok {
+			return
+		}
+		mres := ValidateTraces(c, "mailbox", "MailboxMon", "MailboxMon.cfg", mt, mbDefaults)
+		mres.Report(c, "MailboxMon")
+		c.Add("traces_validated_against_impl", int64(mres.Validated))
 		asCheck(c, asPlan{prop: "C09", monitors: []string{"UnstuckMon"}, mc: t3, gen: g3, ops: asOpsBasic, directed: asConcurrentSiblingFailures,
-			rule: base + "Judged by UnstuckMon."})
+			rule: base + "Judged by UnstuckMon. Plus supervision-shaped scenarios on the real mailbox (a handler pauses its own mailbox, system messages that pause and resume it arrive from another goroutine) under fine-grained schedules, judged by MailboxMon."})
 	})
 	register("C19", func(c *core.Ctx) {
 		asCheck(c, asPlan{prop: "C19", monitors: []string{"StreamMon"}, mc: t3, gen: g3, ops: asOpsStream, directed: asZombieSubscriber,
